@@ -46,6 +46,7 @@ impl Frame {
         q2: Point3<f64>,
         q3: Point3<f64>,
     ) -> Result<Isometry3<f64>, Box<dyn Error>> {
+        const COLINEARITY_TOLERANCE: f64 = 1E-9; // Sine of the angle below which points are on one line
         const NON_ISOMETRY_TOLERANCE: f64 = 0.005; // Tolerance how much the isometry can be actually not
         // an isometry (distance between points differs). 5 mm looks like a reasonable check.
         if !is_valid_isometry(&p1, &p2, &p3, &q1, &q2, &q3, NON_ISOMETRY_TOLERANCE) {
@@ -55,7 +56,9 @@ impl Frame {
         let v1 = p2 - p1;
         let v2 = p3 - p1;
 
-        if v1.cross(&v2).norm() == 0.0 {
+        // Colinear if the sine of the angle between the vectors vanishes up to rounding
+        // (an exact comparison with 0.0 only catches the few exactly representable cases).
+        if v1.cross(&v2).norm() <= COLINEARITY_TOLERANCE * v1.norm() * v2.norm() {
             return Err(Box::new(ColinearPoints::new(p1, p2, p3, true)));
         }
 
@@ -63,7 +66,7 @@ impl Frame {
         let w1 = q2 - q1;
         let w2 = q3 - q1;
 
-        if w1.cross(&w2).norm() == 0.0 {
+        if w1.cross(&w2).norm() <= COLINEARITY_TOLERANCE * w1.norm() * w2.norm() {
             return Err(Box::new(ColinearPoints::new(q1, q2, q3, false)));
         }
 
